@@ -592,7 +592,7 @@ impl Check for SynCheck {
     fn technique(&self) -> &'static str {
         match self.mode {
             Mode::Lossless => "invariant monitor on syntax::parse over exhaustive small-scope + mutated + corpus inputs",
-            Mode::Totality => "panic/stack/step-budget monitor (hook step counter) on syntax::parse over exhaustive small-scope + mutated + corpus inputs + depth-256 towers",
+            Mode::Totality => "panic/stack/step-budget monitor (hook step counter) on syntax::parse over exhaustive small-scope + mutated + corpus inputs + depth-256 towers; CPU-time growth monitor under repetition",
         }
     }
 }
